@@ -1,17 +1,17 @@
 // C18: every API request git-lfs emits conforms to the published LFS API.
-//  (1) in-process encoders: the real tq.Batch / locking.Client functions are called with generated
-//      inputs against a capturing server; the Lean model re-encodes the request from the SAME inputs
-//      and the canonical forms are compared; the repo's own schema files judge every body
-//      (gojsonschema) and so does the model's validator (the two must agree);
-//  (2) scenario flows with the real binary (push, fetch, pull, lock, unlock, locks, locks --verify,
-//      pre-push lock verification) against the fake server: every captured request is validated,
-//      headers checked, actions must be used exactly as offered, batch objects ⊆ what was asked;
-//  (3) corrupted responses: unsupported hash_algo must not be acted upon; single-field corruptions
-//      must neither crash the client nor make it emit a non-conforming request.
+//
+//	(1) in-process encoders: the real tq.Batch / locking.Client functions are called with generated
+//	    inputs against a capturing server; the Lean model re-encodes the request from the SAME inputs
+//	    and the canonical forms are compared; the repo's own schema files judge every body
+//	    (gojsonschema) and so does the model's validator (the two must agree);
+//	(2) scenario flows with the real binary (push, fetch, pull, lock, unlock, locks, locks --verify,
+//	    pre-push lock verification) against the fake server: every captured request is validated,
+//	    headers checked, actions must be used exactly as offered, batch objects ⊆ what was asked;
+//	(3) corrupted responses: unsupported hash_algo must not be acted upon; single-field corruptions
+//	    must neither crash the client nor make it emit a non-conforming request.
 package main
 
 import (
-	"unicode/utf8"
 	"bytes"
 	"encoding/json"
 	"fmt"
@@ -24,6 +24,7 @@ import (
 	"sort"
 	"strings"
 	"sync"
+	"unicode/utf8"
 
 	"github.com/git-lfs/git-lfs/v3/config"
 	"github.com/git-lfs/git-lfs/v3/git"
@@ -180,11 +181,11 @@ func schemaFor(kind string) *gojsonschema.Schema {
 
 // c18Judge: the property on ONE captured request; every finding carries the request as its case
 type c18Judge struct {
-	c        *Ctx
-	mu       sync.Mutex
-	vlines   []string // model validator lines
-	vimpl    []string // gojsonschema's verdicts
-	vcase    []string
+	c                    *Ctx
+	mu                   sync.Mutex
+	vlines               []string // model validator lines
+	vimpl                []string // gojsonschema's verdicts
+	vcase                []string
 	alines, aimpl, acase []string // adapter choice: model line, observed protocol, case
 }
 
@@ -915,7 +916,26 @@ func c18Scenario(c *Ctx, j *c18Judge, idx int, r *Rng) {
 	}
 	w.git("add", "-A")
 	w.git("commit", "-qm", "c1")
-	cas := func() string { return fmt.Sprintf("C18 scen seed=%d idx=%d steps=%s", c.Seed, idx, strings.Join(steps, " ; ")) }
+	if srv.offerExtra && r.Chance(50) {
+		// the storage refuses the first request for some objects although it carries the offered Authorization
+		// (a token not valid yet, or no longer); the user has credentials for the host, but the action says how
+		// the storage is to be addressed: with the offered header, every time
+		srv.mu.Lock()
+		srv.failOnce = map[string]int{}
+		for oid := range asked {
+			if r.Chance(50) {
+				srv.failOnce[oid] = Pick(r, []int{401, 401, 403})
+			}
+		}
+		srv.mu.Unlock()
+		w.git("config", "credential.helper", "!f() { test \"$1\" = get && echo username=gituser && echo password=gitpass; }; f")
+		w.git("config", "lfs.transfer.maxretries", "3")
+		log("storage refuses the first request for %d objects; a credential helper answers", len(srv.failOnce))
+		c.R.Count("storage-refuses-offered-token-once")
+	}
+	cas := func() string {
+		return fmt.Sprintf("C18 scen seed=%d idx=%d steps=%s", c.Seed, idx, strings.Join(steps, " ; "))
+	}
 	from := 0
 	judge := func() {
 		c18JudgeServer(j, srv, from, asked, cas())
